@@ -71,6 +71,9 @@ STEPS = [
     # record transform (cdata): one (k, v) block row per value column; in SQL a CROSS JOIN with the inlined control table
     ("rec_unpivot", ".convert_records(RecordMap(blocks_out=RecordSpecification(pd.DataFrame({'k': ['a', 'b'], 'v': ['x', 'y']}), "
                     "record_keys=['g'], control_table_keys=['k'])))", "convert_records"),
+    # only buildable directly/indirectly after rec_unpivot (the builder is the arbiter): narrowing right after a raw query step
+    ("cols_dropv", ".drop_columns(['v'])", "drop_columns"),
+    ("cols_selkv", ".select_columns(['v', 'k'])", "select_columns"),
 ]
 STEP = {n: (s, k) for n, s, k in STEPS}
 
